@@ -57,6 +57,8 @@ pub struct WorldSpec {
     pub dnskey_sigs: Vec<Record>,
     /// RRSIGs first in the DNSKEY / answer sections
     pub sigs_first: bool,
+    /// one extra record inserted at that position of the answer section
+    pub inject: Option<(usize, Record)>,
 }
 
 pub fn rrset_kinds() -> Vec<&'static str> {
@@ -189,7 +191,7 @@ impl Base {
         }
         let dnskeys = self.dnskey_records(&self.keys);
         let dnskey_sigs = self.dk_signers.iter().map(|i| make_sig(&dnskeys, &self.keys[*i], &SigSpec::window(dk_win.0, dk_win.1))).collect();
-        WorldSpec { ans_records: self.records.clone(), ans_sigs, authority, dnskeys, dnskey_sigs, sigs_first: false }
+        WorldSpec { ans_records: self.records.clone(), ans_sigs, authority, dnskeys, dnskey_sigs, sigs_first: false, inject: None }
     }
 
     pub fn resign_dnskeys(&self, spec: &mut WorldSpec, dk_win: Win) {
@@ -206,6 +208,9 @@ impl Base {
         } else {
             an.extend(spec.ans_records.iter().cloned());
             an.extend(spec.ans_sigs.iter().cloned());
+        }
+        if let Some((pos, rec)) = &spec.inject {
+            an.insert((*pos).min(an.len()), rec.clone());
         }
         t.insert(key_of(&self.qname, self.qtype), sign::response(&q, an, spec.authority.clone()).to_vec().unwrap());
         let dq = Query::new(self.zone.clone(), RecordType::DNSKEY);
@@ -550,6 +555,63 @@ pub fn field_replacements(b: &Base) -> Vec<Scenario> {
         let mut s = h.clone();
         s.ans_sigs.push(broken);
         out.push(b.single("field", "a broken RRSIG added after the good one".into(), now, &s));
+    }
+    out
+}
+
+// ------------------------------------------------------------------------------------------
+// F2b: injection family — ONE extra record next to the signed RRset, at every position of the
+// answer section, differing from a genuine record of the RRset in exactly one of {RDATA, class,
+// TTL, owner case, owner}, and the pairs class + new RDATA
+
+fn new_rdata(b: &Base) -> RData {
+    match b.qtype {
+        RecordType::A => RData::A(A::new(6, 6, 6, 6)),
+        RecordType::TXT => RData::TXT(TXT::new(vec!["evil".into()])),
+        RecordType::MX => RData::MX(MX::new(1, vsec::n("evil.e."))),
+        RecordType::NS => RData::NS(NS(vsec::n("evil.e."))),
+        _ => RData::CNAME(CNAME(vsec::n("evil.e."))),
+    }
+}
+
+pub fn injections(b: &Base) -> Vec<Scenario> {
+    let now = T0;
+    let w = wide(now);
+    let h = b.honest(w, w);
+    let g = b.records[0].clone();
+    let classes: [(&str, DNSClass); 5] = [("CH", DNSClass::CH), ("HS", DNSClass::HS), ("NONE", DNSClass::NONE), ("ANY", DNSClass::ANY), ("0x00fe", DNSClass::Unknown(0x00fe))];
+    let mut variants: Vec<(String, Record)> = vec![];
+    {
+        let mut r = g.clone();
+        r.data = new_rdata(b);
+        variants.push(("new RDATA".into(), r));
+        let mut r = g.clone();
+        r.ttl = g.ttl + 1;
+        variants.push(("copy with TTL+1".into(), r));
+        let mut r = g.clone();
+        r.name = Name::from_ascii(g.name.to_ascii().to_uppercase()).unwrap();
+        variants.push(("copy with owner in upper case".into(), r));
+        let mut r = g.clone();
+        r.name = first_label_replaced(&g.name, "wwx");
+        variants.push(("copy at a sibling owner".into(), r));
+        for (cn, c) in classes {
+            let mut r = g.clone();
+            r.dns_class = c;
+            variants.push((format!("exact copy except class {cn}"), r));
+            let mut r = g.clone();
+            r.dns_class = c;
+            r.data = new_rdata(b);
+            variants.push((format!("class {cn} and new RDATA"), r));
+        }
+    }
+    let positions = h.ans_records.len() + h.ans_sigs.len() + 1;
+    let mut out = vec![];
+    for (what, rec) in &variants {
+        for pos in 0..positions {
+            let mut s = h.clone();
+            s.inject = Some((pos, rec.clone()));
+            out.push(b.single("inject", format!("one record injected at answer position {pos}: {what}"), now, &s));
+        }
     }
     out
 }
